@@ -103,6 +103,7 @@ def run(ctx):  # noqa: C901, PLR0912, PLR0915
     # an object enters the table as a copy that shares nothing with the one the application keeps: the indexed attributes of a
     # resident object change only through update_object (R2), never through a value shared with a copy
     common.copies_are_deep(ctx, 'C11.R2')
+    common.no_mutation_while_iterating(ctx, 'C11.R3', ['sdc11073.multikey', 'sdc11073.mdib.mdibbase'])
     # ------------------------------------------------------------------ R2
     n_upd = 0
     for fi in repo.funcs.values():
